@@ -995,13 +995,14 @@ def classify_api(case, code, r):
         if op == "einsum" and case["b"] is not None and "Inconsistent shape for index" in (r.get("r") or {}).get("msg", "") \
                 and 1 in (list(sa) + list(sb)):
             return "value", CL_ES1
-        if op in ("matmul", "at") and len(sa) >= 3 and len(sb) >= 3 and ka != "nd" and kb != "nd":
+        if op in ("matmul", "at") and max(len(sa), len(sb)) >= 3 and min(len(sa), len(sb)) >= 2:
             # _matmul_recurser: a[i] on an empty axis / stack of no results
             ba, bb = sa[:-2], sb[:-2]
             n = max(len(ba), len(bb))
             ba, bb = [1] * (n - len(ba)) + ba, [1] * (n - len(bb)) + bb
             msg = (r.get("r") or {}).get("msg", "")
             if any(0 in (x, y) for x, y in zip(ba, bb)) and ("Index is not smaller than dimension" in msg
+                                                             or "is out of bounds for axis 0 with size 0" in msg
                                                              or "At least one array required" in msg):
                 return "value", CL_MM0
         return "value", None
